@@ -21,7 +21,7 @@ STACKS = [32768, 65536, 262144, 1048576]
 # before later ones): no cycle, hence no deadlock; the target exists when the reaper runs.
 # ------------------------------------------------------------------------------------------------
 
-def gen_program(rng, max_threads=10, reap_kinds=("join",), p_det=8):
+def gen_program(rng, max_threads=10, reap_kinds=("join",), p_det=8, more_setters=False):
     parent, children = {0: None}, {0: []}
     n = 1
     budget = rng.rng(2, max_threads)
@@ -53,6 +53,18 @@ def gen_program(rng, max_threads=10, reap_kinds=("join",), p_det=8):
             detached.add(c)
         elif rng.chance(1, 6):
             f.append("nullid")
+        if more_setters:
+            # the remaining public setters and the explicit child-first request (lib_interp holds 6 words per op)
+            if "pf" not in f and rng.chance(1, 3):
+                f.insert(0, "cf")
+            if not any(x.startswith("ss=") for x in f) and rng.chance(1, 4):
+                f.append("stk=%d" % rng.choice(STACKS))
+            if rng.chance(1, 3):
+                f.append("gs=%d" % rng.choice([0, 4096, 8192]))
+            if len(f) > 4 and "attr" in f:
+                f.remove("attr")
+            while len(f) > 4:
+                f.remove([x for x in f if x.startswith(("gs=", "stk=", "ss="))][0] if any(x.startswith(("gs=", "stk=", "ss=")) for x in f) else f[-1])
         flags[c] = f
     # items of each thread's program: ('create', c) in order, reaping ops inserted after their constraint
     prog = {t: [("create", c) for c in children[t]] for t in range(nthreads)}
@@ -130,6 +142,22 @@ def gen_program(rng, max_threads=10, reap_kinds=("join",), p_det=8):
     return threads, {"expect": expect, "detached": sorted(detached), "reaper_of": reaper_of, "flags": flags}
 
 
+def gen_global_order(ctx, n):
+    """the GLOBAL default creation order is parent-first - set through myth_globalattr_set_child_first (case option
+    `gchildfirst 0`) or through the environment variable MYTH_CHILD_FIRST=0 (`envchildfirst 0`): creations with an
+    initialised attribute take the parent-first path without asking for it, attr == NULL creations stay child-first,
+    `cf` asks for child-first explicitly; the remaining public setters (guard size, stack) are called too"""
+    r = ctx.rng
+    cases = []
+    for i in range(n):
+        threads, meta = gen_program(r, max_threads=r.choice([3, 5, 8]), reap_kinds=KINDS, more_setters=True)
+        route = r.choice(["gchildfirst", "envchildfirst"])
+        val = r.choice([0, 0, 0, 1])
+        cases.append(trace.case_text(r.choice([1, 2, 3, 4]), r.rng(1, 1 << 30), [], threads,
+                                     pswitch=r.choice([20, 35, 60, 85]), extra={route: val}))
+    return cases
+
+
 def gen_cases(ctx, n):
     r = ctx.rng
     cases = []
@@ -148,6 +176,21 @@ def gen_cases(ctx, n):
 # oracle: the property, stated on the trace
 # ------------------------------------------------------------------------------------------------
 
+def expected_order(P, c):
+    """'1' child-first / '0' parent-first, from the documented meaning of the request: an explicit request in
+    the attribute wins; an initialised attribute carries the global default; attr == NULL is child-first
+    whatever the global default (myth_create_ex_body: `attr ? attr->child_first : 1`)"""
+    fl = P.flags.get(c, [])
+    uses_attr = any(x in fl for x in ("pf", "cf", "det", "attr")) or any(x.startswith(("ss=", "gs=", "stk=")) for x in fl) or P.forced_pf
+    if not uses_attr:
+        return "1"
+    if "pf" in fl or (P.forced_pf and "cf" not in fl):
+        return "0"
+    if "cf" in fl:
+        return "1"
+    return "1" if P.gcf != "0" else "0"
+
+
 def oracle(r):
     P = r["proj"]
     bad = []
@@ -164,7 +207,7 @@ def oracle(r):
         if len(st) > 1 or (must and len(st) != 1):
             bad.append("thread t%d (tag %d): start function invoked %d time(s)" % (c, P.tag[c], len(st)))
         for pos, val, actor in st:
-            want = "0" if "pf" in P.flags.get(c, []) else "1"
+            want = expected_order(P, c)
             if val != want:
                 bad.append("thread t%d started %s-first, requested %s" % (c, "child" if val == "1" else "parent", "parent-first" if want == "0" else "child-first"))
     # the interpreter prints the thread number it received as ARGUMENT on C lines; the controller resolves
@@ -217,9 +260,10 @@ def search(ctx, exe, drv, case, oracle_fn, n=40):
     objs, threads, scripts, params = trace.parse_case(case)
     th = {t: [" ".join(o) for o in ops] for t, ops in threads.items()}
     cases = []
+    keep = {k: params[k] for k in ("gchildfirst", "envchildfirst", "parentfirst") if k in params}
     for i in range(n):
         cases.append(trace.case_text(ctx.rng.choice([1, 2, 3, 4]), ctx.rng.rng(1, 1 << 30), [], th,
-                                     pswitch=ctx.rng.choice([60, 75, 90])))
+                                     pswitch=ctx.rng.choice([60, 75, 90]), extra=keep))
     for r in dc.run_cases(ctx, exe, drv, cases, subdir="search"):
         b = oracle_fn(r)
         if b:
@@ -227,7 +271,9 @@ def search(ctx, exe, drv, case, oracle_fn, n=40):
     return None, None
 
 
-def judge(ctx, prop, results, oracle_fn, points, broken, log, exe, drv, assumptions, extra_trusted=()):
+def judge(ctx, prop, results, oracle_fn, points, broken, log, exe, drv, assumptions, extra_trusted=(), extra_violations=()):
+    for what, body in extra_violations:
+        ctx.violation("oracle", what, body, found=True)
     static = dc.source_order_check()
     ctx.cov["step_table_check"] = {"functions": len(dc.STEP_TABLE), "accesses": sum(len(x[1]) for x in dc.STEP_TABLE), "problems": static}
     hist = dc.point_histogram(results)
@@ -293,18 +339,81 @@ ASSUMPTIONS = ["usage contract (encoded as enabledness of the calls): a reaping 
                "the main thread does not leave through the thread exit path (myth_fini is C15's)"]
 
 
+# ------------------------------------------------------------------------------------------------
+# free-running family (harness/c01_free.c): no controller, the workers really run concurrently
+# ------------------------------------------------------------------------------------------------
+
+FREE_REPEAT = 5
+
+
+def build_free(ctx):
+    lib = vlib.build_lib()
+    return vlib.cc(os.path.join(ctx.dir, "c01_free"), [os.path.join(vlib.VERIF, "harness", "c01_free.c")],
+                   flags=vlib.lib_cflags() + ["-O1", "-g"], libs=[lib, "-lpthread", "-ldl", "-lrt"])
+
+
+def run_free_config(exe, cfg):
+    rc, out = vlib.sh([exe] + [str(x) for x in cfg], timeout=200)
+    line = ([l for l in out.split("\n") if l.startswith(("ok", "BAD"))] or [out.strip()[-300:]])[0]
+    return rc == 0 and line.startswith("ok"), rc, line
+
+
+def run_free(ctx):
+    """returns (violations, stats): every child fills a private buffer with plain stores and returns / exits (from
+    nested frames) a checksum-bearing value; the joiner (parent / sibling / grandparent) checks every word, the
+    value, the argument record and the start count"""
+    exe = build_free(ctx)
+    pairs = 25000 if not ctx.thorough else 250000
+    stats, viol = [], []
+    for w in (2, 3, 4, 8):
+        for mode in ([], ["gpf"]):
+            cfg = [w, pairs, ctx.rng.rng(1, 1 << 30)] + mode
+            ok, rc, line = run_free_config(exe, cfg)
+            stats.append({"config": cfg, "rc": rc, "result": line})
+            if not ok:
+                again = [run_free_config(exe, cfg) for _ in range(FREE_REPEAT)]
+                rep = sum(1 for a in again if not a[0])
+                viol.append(("free-running create/join (no controller), %d workers%s: %s [rc=%d; reproduced in %d of %d repetitions of the same configuration]"
+                             % (w, ", global default parent-first" if mode else "", line, rc, rep, FREE_REPEAT),
+                             {"free_config": cfg, "observed": line, "exit_status": rc, "level": "library",
+                              "expected": "every word the child stored, its return/exit value, its argument record and one start per creation are what the joiner sees",
+                              "repetitions": {"n": FREE_REPEAT, "failed": rep, "lines": [a[2] for a in again]}}))
+                return viol, stats            # one failing configuration is enough
+    return viol, stats
+
+
 def run(ctx):
     broken, log = ctx.prove("Properties_C01.v", "Properties_C01")
     exe, drv = dc.build(ctx)
-    n = 110 if not ctx.thorough else 1500
-    cases = load_corpus("C01") + gen_cases(ctx, n)
+    n = 100 if not ctx.thorough else 1500
+    cases = load_corpus("C01") + gen_cases(ctx, n) + gen_global_order(ctx, 40 if not ctx.thorough else 600)
     results = dc.run_cases(ctx, exe, drv, cases)
-    return judge(ctx, "C01", results, oracle, POINTS, broken, log, exe, drv, ASSUMPTIONS)
+    fviol, fstats = run_free(ctx)
+    ctx.cov["free_running"] = {"configs": fstats, "pairs_total": sum(int(x["config"][1]) for x in fstats)}
+    orders = {}
+    for r in results:
+        for c, st in r["proj"].starts.items():
+            k = "%s global=%s %s" % ("attr" if expected_order(r["proj"], c) is not None and
+                                     (set(r["proj"].flags.get(c, [])) - {"nullid"}) else "NULL-attr",
+                                     r["proj"].gcf, "child-first" if st[0][1] == "1" else "parent-first")
+            orders[k] = orders.get(k, 0) + 1
+    ctx.cov["creation_orders"] = orders
+    return judge(ctx, "C01", results, oracle, POINTS, broken, log, exe, drv, ASSUMPTIONS,
+                 extra_trusted=["harness/c01_free.c (free-running; pattern / checksum / argument bookkeeping; not deterministic: a failure is re-run %d times and the count reported)" % FREE_REPEAT],
+                 extra_violations=fviol)
 
 
 def replay(ctx, path):
     body = json.load(open(path))
     exe, drv = dc.build(ctx)
+    if "free_config" in body:
+        fexe = build_free(ctx)
+        res = [run_free_config(fexe, body["free_config"]) for _ in range(FREE_REPEAT)]
+        print("free-running configuration (workers pairs seed [gpf]):", body["free_config"])
+        for ok, rc, line in res:
+            print("impl:  rc=%d %s" % (rc, line))
+        print("failed in %d of %d repetitions (recorded: %s)" % (sum(1 for x in res if not x[0]), FREE_REPEAT, body.get("observed")))
+        return 0
     if "case" not in body:
         print("replay file holds no case (broken obligation): ", body.get("what"))
         return 0
